@@ -5,8 +5,9 @@ decided."""
 import ast
 import re
 
-from ..core import (AnalysisError, body_nodes, call_name, dotted, is_self_attr, key_text, names_in,
+from ..core import (AnalysisError, body_nodes, call_name, dotted, enclosing_stmt, is_self_attr, key_text, names_in,
                     params, parent, stmts_of, unparse)
+from ..flow import reaching_defs
 from ..own import FuncInfo, Own
 
 SITE = 'tenpy/networks/site.py'
@@ -355,6 +356,66 @@ def check_owned_attrs(prog, rep, modules=(TERMS, SITE)):
     return n
 
 
+# helper -> (position, keyword) of an argument whose value must be the same for every call of the
+# helper that re-computes the operators of one term: the flag says whether a Jordan-Wigner string
+# arrives from operators further right, which is a property of the term pair, not of the call.
+ROLE_ARGS = {'_term_to_ops_list': (3, 'JW_from_right')}
+
+
+def check_recompute_agree(prog, rep):
+    m = prog.module(MPS)
+    n = 0
+    for q, f in m.functions.items():
+        groups = {}
+        for c in body_nodes(f):
+            if isinstance(c, ast.Call) and is_self_attr(c.func) and c.func.attr in ROLE_ARGS and \
+                    c.args:
+                groups.setdefault((c.func.attr, unparse(c.args[0])), []).append(c)
+        groups = {k: v for k, v in groups.items() if len(v) > 1}
+        if not groups:
+            continue
+        cfg, rd = reaching_defs(f)
+        for (callee, term), calls in sorted(groups.items()):
+            pos, kw = ROLE_ARGS[callee]
+            seen = []
+            for c in calls:
+                a = c.args[pos] if len(c.args) > pos else None
+                for k in c.keywords:
+                    if k.arg == kw:
+                        a = k.value
+                if a is None:
+                    val = ('absent', )
+                else:
+                    defs = set()
+                    st = enclosing_stmt(c)
+                    for nm in sorted(names_in(a)):
+                        for nd in cfg.nodes_of(st):
+                            defs |= {(nm, d) for d in rd.get(nd.id, {}).get(nm, ())}
+                    val = (unparse(a), tuple(sorted(defs)))
+                seen.append((c, val))
+            n += 1
+            rep.instance('RECOMPUTE-agree', {'function': q, 'callee': callee, 'term': term,
+                                             'calls': len(calls)})
+            c0, v0 = seen[0]
+            for c, v in seen[1:]:
+                if v != v0:
+                    rep.violation(
+                        'RECOMPUTE-agree', m, q, 'role-arg:%s:%s' % (callee, term),
+                        '%s calls %s for the term `%s` several times (once up front, again inside '
+                        'its loop) but the `%s` argument differs: `%s` sees %s, `%s` sees %s -- '
+                        'the name was rebound in between, so the re-computed operators lose (or '
+                        'gain) the Jordan-Wigner string coming from the other term' %
+                        (q, callee, term, kw, unparse(c0)[:70], _show(v0), unparse(c)[:70],
+                         _show(v)), c.lineno)
+    return n
+
+
+def _show(v):
+    if v == ('absent', ):
+        return 'the default'
+    return 'the value bound by ' + '; '.join('`%s`' % d[:60] for _, d in v[1]) if v[1] else v[0]
+
+
 def run(prog, rep, tier):
     rep.rule('SITE-*', 'add_op / remove_op / rename_op keep attribute, opnames, need_JW_string, '
              'hc_ops (both directions) and JW_exponent in step; JW need of a product is a parity; '
@@ -366,6 +427,8 @@ def run(prog, rep, tier):
              'loop variable')
     rep.rule('JW-entry', 'every API placing named operators on sites reaches the Jordan-Wigner '
              'decision; the handlers branch on it as documented')
+    rep.rule('RECOMPUTE-agree', 'calls that re-compute the operator list of one term pass the same '
+             'JW_from_right value (same expression, same reaching definitions)')
     rep.rule('OWN-attr', 'attributes that may alias constructor arguments are not written in '
              'place')
     check_site_registry(prog, rep)
@@ -374,6 +437,8 @@ def run(prog, rep, tier):
     check_loopvar_const_index(prog, rep)
     check_jw_entry_points(prog, rep)
     check_owned_attrs(prog, rep)
+    check_recompute_agree(prog, rep)
+    rep.floor('RECOMPUTE-agree', 2)
     rep.floor('SITE-registry', 12)
     rep.floor('JW-entry', 10)
     rep.assumptions += ['operator algebra as dense matrices is NOT decided']
